@@ -1,6 +1,16 @@
-import IofloModel.Lemmas.Clauses
+import IofloModel.Lemmas.ClauseVerbs
 /-!
 # C15 — optional clauses of a command may appear in any order
+
+Model: `Model/Clauses.lean` (the option loops of `buildFramer`, `buildFrame`, `buildDo`, `buildAux`,
+`buildRear`, `buildLog`, `buildLogger`, `buildServer` and the sub-parsers they call).
+
+A *clause text* is `connective token…`.  `Alone v c`: the clause parses on its own — from any
+configuration, consuming all its tokens.  The theorems say: clause texts with pairwise different
+connectives that each parse alone parse, in every order, to one and the same configuration — because
+each is *local* (`LocalText`: what follows a clause is never absorbed into it).  Where the code as it
+is does absorb, the theorem carries the complement of the finding's region as a hypothesis and the
+finding is proved as a counterexample.
 -/
 namespace Ioflo.Clauses
 open Ioflo.Literal
@@ -8,12 +18,394 @@ open Ioflo.Literal
 /-- **C15, generic form.** For an option loop (`while index < len(tokens): connective = …`) in which
 every clause of a set is *local* — before any continuation that is empty or starts with a connective
 of the verb, the loop body consumes exactly the clause's own tokens — and the clauses' updates of
-the configuration commute (they set different fields), every arrangement of the clauses parses to
-the same configuration. -/
+the configuration commute, every arrangement of the clauses parses to the same configuration. -/
 theorem C15_order_independent {σ : Type} (v : Verb σ) (K : List Str) (cs₁ cs₂ : List (ClauseSem σ))
     (hp : cs₁.Perm cs₂) (hk : ∀ c ∈ cs₁, c.key ∈ K) (hl : ∀ c ∈ cs₁, Local v K c)
     (hc : ∀ a ∈ cs₁, ∀ b ∈ cs₁, ∀ s, b.upd (a.upd s) = a.upd (b.upd s)) (s : σ) :
-    runClauses v (flat cs₁) s = runClauses v (flat cs₂) s :=
-  runClauses_perm v K cs₁ cs₂ hp hk hl hc s
+    runClauses v (flat cs₁) s = runClauses v (flat cs₂) s := by
+  have := runClauses_perm v K cs₁ cs₂ hp hk hl hc [] (Or.inl rfl) s
+  simpa using this
+
+/-- clause texts with pairwise different connectives -/
+def Distinct (cs : List (List Str)) : Prop := ∀ a ∈ cs, ∀ b ∈ cs, a ≠ b → a.head? ≠ b.head?
+
+/-- what a theorem below concludes: every arrangement gives the same result, and it is a success -/
+def SameAndOk {σ : Type} (v : Verb σ) (cs₁ cs₂ : List (List Str)) (s : σ) : Prop :=
+  runClauses v cs₁.flatten s = runClauses v cs₂.flatten s ∧ ∃ cfg, runClauses v cs₁.flatten s = .ok cfg
+
+theorem alone_key {σ : Type} {v : Verb σ} {K : List Str}
+    (hkey : ∀ k b s s', v.clause k b s = .ok (s', []) → k ∈ K) {cs : List (List Str)}
+    (ha : ∀ c ∈ cs, Alone v c) (s0 : σ) : ∀ k ∈ keysOf cs, k ∈ K := by
+  intro k hk
+  unfold keysOf at hk
+  rw [List.mem_filterMap] at hk
+  obtain ⟨c, hc, hh⟩ := hk
+  obtain ⟨k', b, rfl, hal⟩ := ha c hc
+  simp at hh; subst hh
+  obtain ⟨s', h⟩ := hal s0
+  exact hkey _ _ _ _ h
+
+theorem finish {σ : Type} {v : Verb σ} {cs₁ cs₂ : List (List Str)} {s : σ}
+    (h : runClauses v (cs₁.flatten ++ []) s = runClauses v (cs₂.flatten ++ []) s ∧
+      ∃ cfg, runClauses v (cs₁.flatten ++ []) s = runClauses v [] cfg) : SameAndOk v cs₁ cs₂ s := by
+  simp only [List.append_nil, runClauses_nil] at h
+  exact h
+
+/-! ## frame name [in over] [via inode] -/
+
+theorem frame_key (k : Str) (b : List Str) (s s' : FrameCfg) (h : frameVerb.clause k b s = .ok (s', [])) :
+    k ∈ frameKeys := by
+  change frameClause k b s = _ at h
+  unfold frameClause at h
+  split at h
+  · rename_i hk; simp at hk; simp [frameKeys, hk]
+  · split at h
+    · rename_i hk; simp at hk; simp [frameKeys, hk]
+    · cases h
+
+/-- **frame**: full. -/
+theorem C15_frame (cs₁ cs₂ : List (List Str)) (hp : cs₁.Perm cs₂) (hd : Distinct cs₁)
+    (ha : ∀ c ∈ cs₁, Alone frameVerb c) (s : FrameCfg) : SameAndOk frameVerb cs₁ cs₂ s := by
+  have hK := alone_key frame_key ha s
+  exact finish (texts_order_independent frameVerb frameKeys [] cs₁ cs₂ hp hK hd
+    (fun c hc => frame_local _ (by simpa using hK) c (ha c hc)) frame_commutes [] (Or.inl rfl) s)
+
+/-- the command level: `frame name <clauses>` -/
+theorem C15_buildFrame (name : Str) (cs₁ cs₂ : List (List Str)) (hp : cs₁.Perm cs₂) (hd : Distinct cs₁)
+    (ha : ∀ c ∈ cs₁, Alone frameVerb c) : buildFrame (name :: cs₁.flatten) = buildFrame (name :: cs₂.flatten) := by
+  unfold buildFrame
+  simp only [oneTok, bind]
+  rw [(C15_frame cs₁ cs₂ hp hd ha {}).1]
+
+/-! ## framer name [be …] [at …] [in …] [first …] [via …] -/
+
+theorem framer_key (k : Str) (b : List Str) (s s' : FramerCfg) (h : framerVerb.clause k b s = .ok (s', [])) :
+    k ∈ framerKeys := by
+  change framerClause k b s = _ at h
+  unfold framerClause at h
+  repeat' split at h
+  all_goals first
+    | (rename_i hk; simp at hk; simp [framerKeys, hk]; done)
+    | (rename_i hk _; simp at hk; simp [framerKeys, hk]; done)
+    | cases h
+
+/-- the full statement for `framer` -/
+def C15_framer_full : Prop :=
+  ∀ (cs₁ cs₂ : List (List Str)), cs₁.Perm cs₂ → Distinct cs₁ → (∀ c ∈ cs₁, Alone framerVerb c) →
+    ∀ s, SameAndOk framerVerb cs₁ cs₂ s
+
+/-- **framer, partial**: holds outside the region of defect D51 (a `first` clause together with a `via`
+clause whose relation ends with an omitted name). -/
+theorem C15_framer_partial (cs₁ cs₂ : List (List Str)) (hp : cs₁.Perm cs₂) (hd : Distinct cs₁)
+    (ha : ∀ c ∈ cs₁, Alone framerVerb c) (hreg : d51Region cs₁ = false) (s : FramerCfg) :
+    SameAndOk framerVerb cs₁ cs₂ s := by
+  have hK := alone_key framer_key ha s
+  refine finish (texts_order_independent framerVerb framerKeys [] cs₁ cs₂ hp hK hd
+    (fun c hc => framer_local _ (by simpa using hK) c (ha c hc) ?_) framer_commutes [] (Or.inl rfl) s)
+  intro hv hf
+  apply closed_of_not_open
+  simp only [d51Region, Bool.and_eq_false_iff] at hreg
+  rcases hreg with h1 | h2
+  · simp only [List.append_nil] at hf
+    have : (keysOf cs₁).contains (str "first") = true := by simpa using hf
+    rw [this] at h1; cases h1
+  · rw [List.any_eq_false] at h2
+    have := h2 c hc
+    simpa [hv] using this
+
+/-- D51 witness: `framer alpha via inode of framer first beta` -/
+def d51a : List (List Str) := [[str "via", str "inode", str "of", str "framer"], [str "first", str "beta"]]
+def d51b : List (List Str) := [[str "first", str "beta"], [str "via", str "inode", str "of", str "framer"]]
+
+theorem C15_framer_counterexample : ¬ C15_framer_full := by
+  intro h
+  have hp : d51a.Perm d51b := List.Perm.swap _ _ _
+  have hd : Distinct d51a := by
+    intro a ha b hb hne
+    simp only [d51a, List.mem_cons, List.not_mem_nil, or_false] at ha hb
+    rcases ha with rfl | rfl <;> rcases hb with rfl | rfl <;> first | exact absurd rfl hne | decide
+  have hal : ∀ c ∈ d51a, Alone framerVerb c := by
+    intro c hc
+    simp only [d51a, List.mem_cons, List.not_mem_nil, or_false] at hc
+    rcases hc with rfl | rfl
+    · refine ⟨_, _, rfl, fun s => ⟨{ s with inode := str "framer.me.inode" }, ?_⟩⟩
+      have e : framerVerb.clause = framerClause := rfl
+      rw [e, framer_via]
+      have : parseIndirect true [str "inode", str "of", str "framer"] = .ok (str "framer.me.inode", []) := by
+        decide +kernel
+      simp [clauseOf, this, accept]
+    · refine ⟨_, _, rfl, fun s => ⟨{ s with first := str "beta" }, ?_⟩⟩
+      have e : framerVerb.clause = framerClause := rfl
+      rw [e, framer_first]
+      have : named (str "beta") = .ok (str "beta") := by decide +kernel
+      simp [clauseOf, oneTok, this]
+  have := (h d51a d51b hp hd hal {}).1
+  revert this
+  decide +kernel
+
+/-- … and it is the D51 region: -/
+example : d51Region d51a = true := by decide +kernel
+
+/-! ## log, logger: single-token values — full -/
+
+theorem log_key (k : Str) (b : List Str) (s s' : LogCfg) (h : logVerb.clause k b s = .ok (s', [])) :
+    k ∈ logKeys := by
+  have e : logVerb.clause = logClause := rfl
+  rw [e] at h
+  unfold logClause at h
+  repeat' split at h
+  all_goals first
+    | (rename_i hk; simp at hk; simp [logKeys, hk]; done)
+    | (rename_i hk _; simp at hk; simp [logKeys, hk]; done)
+    | cases h
+
+/-- **log**: full. -/
+theorem C15_log (cs₁ cs₂ : List (List Str)) (hp : cs₁.Perm cs₂) (hd : Distinct cs₁)
+    (ha : ∀ c ∈ cs₁, Alone logVerb c) (s : LogCfg) : SameAndOk logVerb cs₁ cs₂ s :=
+  finish (texts_order_independent logVerb logKeys [] cs₁ cs₂ hp (alone_key log_key ha s) hd
+    (fun c hc => log_local _ c (ha c hc)) log_commutes [] (Or.inl rfl) s)
+
+theorem logger_key (k : Str) (b : List Str) (s s' : LoggerCfg) (h : loggerVerb.clause k b s = .ok (s', [])) :
+    k ∈ loggerKeys := by
+  have e : loggerVerb.clause = loggerClause := rfl
+  rw [e] at h
+  unfold loggerClause at h
+  repeat' split at h
+  all_goals first
+    | (rename_i hk; simp at hk; simp [loggerKeys, hk]; done)
+    | (rename_i hk _; simp at hk; simp [loggerKeys, hk]; done)
+    | cases h
+
+/-- **logger**: full. -/
+theorem C15_logger (cs₁ cs₂ : List (List Str)) (hp : cs₁.Perm cs₂) (hd : Distinct cs₁)
+    (ha : ∀ c ∈ cs₁, Alone loggerVerb c) (s : LoggerCfg) : SameAndOk loggerVerb cs₁ cs₂ s :=
+  finish (texts_order_independent loggerVerb loggerKeys [] cs₁ cs₂ hp (alone_key logger_key ha s) hd
+    (fun c hc => logger_local _ c (ha c hc)) logger_commutes [] (Or.inl rfl) s)
+
+/-! ## rear original [as clone] [be schedule] [in frame name] -/
+
+theorem rear_key (k : Str) (b : List Str) (s s' : RearCfg) (h : rearVerb.clause k b s = .ok (s', [])) :
+    k ∈ rearKeys := by
+  have e : rearVerb.clause = rearClause := rfl
+  rw [e] at h
+  unfold rearClause at h
+  repeat' split at h
+  all_goals first
+    | (rename_i hk; simp at hk; simp [rearKeys, hk]; done)
+    | (rename_i hk _; simp at hk; simp [rearKeys, hk]; done)
+    | cases h
+
+/-- **rear**: for clause sets whose `in` clause names its frame (`in frame <name>`, three tokens; the
+syntax `rear … in frame framename` requires the name). -/
+theorem C15_rear (cs₁ cs₂ : List (List Str)) (hp : cs₁.Perm cs₂) (hd : Distinct cs₁)
+    (ha : ∀ c ∈ cs₁, Alone rearVerb c)
+    (hin : ∀ c ∈ cs₁, c.head? = some (str "in") → c.length = 3) (s : RearCfg) :
+    SameAndOk rearVerb cs₁ cs₂ s :=
+  finish (texts_order_independent rearVerb rearKeys [] cs₁ cs₂ hp (alone_key rear_key ha s) hd
+    (fun c hc => rear_local _ c (ha c hc) (hin c hc)) rear_commutes [] (Or.inl rfl) s)
+
+/-! ## do kind… [as …] [at …] [via …] [with …] [from …] [per …] [for …] [cum …] [qua …] -/
+
+theorem do_key (fix : Bool) (k : Str) (b : List Str) (s s' : DoCfg)
+    (h : (doVerb fix).clause k b s = .ok (s', [])) : k ∈ doStops := by
+  have e : (doVerb fix).clause = doClause fix := rfl
+  have e2 : doStops = [str "as", str "at", str "via", str "with", str "from", str "per", str "for", str "cum", str "qua"] := rfl
+  rw [e] at h
+  unfold doClause at h
+  repeat' split at h
+  all_goals first
+    | (rename_i hk; simp at hk; simp [e2, hk]; done)
+    | (rename_i hk _; simp at hk; simp [e2, hk]; done)
+    | cases h
+
+/-- **do, repaired `as` terminator list**: full. -/
+theorem C15_do (cs₁ cs₂ : List (List Str)) (hp : cs₁.Perm cs₂) (hd : Distinct cs₁)
+    (ha : ∀ c ∈ cs₁, Alone (doVerb true) c) (s : DoCfg) : SameAndOk (doVerb true) cs₁ cs₂ s := by
+  have hK := alone_key (do_key true) ha s
+  refine finish (texts_order_independent (doVerb true) doStops [] cs₁ cs₂ hp hK hd
+    (fun c hc => do_local true _ (by simpa using hK) c (ha c hc) ?_) (do_commutes true) [] (Or.inl rfl) s)
+  intro _ x hx
+  have := hK x (by simpa using hx)
+  simpa [doAsStops] using this
+
+/-- the full statement for `do` as found -/
+def C15_do_asfound_full : Prop :=
+  ∀ (cs₁ cs₂ : List (List Str)), cs₁.Perm cs₂ → Distinct cs₁ → (∀ c ∈ cs₁, Alone (doVerb false) c) →
+    ∀ s, SameAndOk (doVerb false) cs₁ cs₂ s
+
+/-- **do as found, partial**: holds outside the region of defect D9 (an `as` clause together with a
+`via`, `from` or `per` clause). -/
+theorem C15_do_asfound_partial (cs₁ cs₂ : List (List Str)) (hp : cs₁.Perm cs₂) (hd : Distinct cs₁)
+    (ha : ∀ c ∈ cs₁, Alone (doVerb false) c) (hreg : d9Region cs₁ = false) (s : DoCfg) :
+    SameAndOk (doVerb false) cs₁ cs₂ s := by
+  have hK := alone_key (do_key false) ha s
+  refine finish (texts_order_independent (doVerb false) doStops [] cs₁ cs₂ hp hK hd
+    (fun c hc => do_local false _ (by simpa using hK) c (ha c hc) ?_) (do_commutes false) [] (Or.inl rfl) s)
+  intro hv x hx
+  simp only [List.append_nil] at hx
+  have has : (keysOf cs₁).contains (str "as") = true := by
+    obtain ⟨k, b, rfl, _⟩ := ha c hc
+    simp at hv; subst hv
+    simpa using mem_keysOf hc
+  simp only [d9Region, has, Bool.true_and, Bool.or_eq_false_iff] at hreg
+  have hx' := hK x hx
+  have e2 : doStops = [str "as", str "at", str "via", str "with", str "from", str "per", str "for", str "cum", str "qua"] := rfl
+  simp only [e2, List.mem_cons, List.not_mem_nil, or_false] at hx'
+  rcases hx' with rfl | rfl | rfl | rfl | rfl | rfl | rfl | rfl | rfl
+  · decide
+  · decide
+  · have : (keysOf cs₁).contains (str "via") = true := by simpa using hx
+    rw [this] at hreg; simp at hreg
+  · decide
+  · have : (keysOf cs₁).contains (str "from") = true := by simpa using hx
+    rw [this] at hreg; simp at hreg
+  · have : (keysOf cs₁).contains (str "per") = true := by simpa using hx
+    rw [this] at hreg; simp at hreg
+  · decide
+  · decide
+  · decide
+
+/-- D9 witness: `do doer as foo via x` -/
+def d9a : List (List Str) := [[str "as", str "foo"], [str "via", str "x"]]
+def d9b : List (List Str) := [[str "via", str "x"], [str "as", str "foo"]]
+
+theorem C15_do_asfound_counterexample : ¬ C15_do_asfound_full := by
+  intro h
+  have hp : d9a.Perm d9b := List.Perm.swap _ _ _
+  have hd : Distinct d9a := by
+    intro a ha b hb hne
+    simp only [d9a, List.mem_cons, List.not_mem_nil, or_false] at ha hb
+    rcases ha with rfl | rfl <;> rcases hb with rfl | rfl <;> first | exact absurd rfl hne | decide
+  have hal : ∀ c ∈ d9a, Alone (doVerb false) c := by
+    intro c hc
+    simp only [d9a, List.mem_cons, List.not_mem_nil, or_false] at hc
+    have e : (doVerb false).clause = doClause false := rfl
+    rcases hc with rfl | rfl
+    · refine ⟨_, _, rfl, fun s => ⟨{ s with name := str "Foo" }, ?_⟩⟩
+      rw [e, do_as]
+      have : asName false [str "foo"] = .ok (str "Foo", []) := by decide +kernel
+      have h2 : nonEmpty (str "Foo") = .ok (str "Foo") := by decide +kernel
+      simp [clauseOf, this, h2]
+    · refine ⟨_, _, rfl, fun s => ⟨{ s with inode := some (str "x") }, ?_⟩⟩
+      rw [e, do_via]
+      have : parseIndirect true [str "x"] = .ok (str "x", []) := by decide +kernel
+      simp [clauseOf, this, accept]
+  have := (h d9a d9b hp hd hal {}).1
+  revert this
+  decide +kernel
+
+example : d9Region d9a = true := by decide +kernel
+/-- the repaired loop reads the same two clauses the same way in both orders -/
+example : runClauses (doVerb true) d9a.flatten {} = runClauses (doVerb true) d9b.flatten {} := by
+  decide +kernel
+
+/-! ## aux name [as clone] [via inode] [if needs…] -/
+
+theorem aux_key (k : Str) (b : List Str) (s s' : AuxCfg) (h : auxVerb.clause k b s = .ok (s', [])) :
+    k ∈ [str "as", str "via", str "if"] := by
+  have e : auxVerb.clause = auxClause := rfl
+  rw [e] at h
+  unfold auxClause at h
+  repeat' split at h
+  all_goals first
+    | (rename_i hk; simp at hk; simp [hk]; done)
+    | (rename_i hk _; simp at hk; simp [hk]; done)
+    | cases h
+
+/-- **aux**: the `as` / `via` clauses in any order, followed by the optional trailing `if …` clause. -/
+theorem C15_aux (cs₁ cs₂ : List (List Str)) (hp : cs₁.Perm cs₂) (hd : Distinct cs₁)
+    (ha : ∀ c ∈ cs₁, Alone auxVerb c) (hnoif : ∀ c ∈ cs₁, c.head? ≠ some (str "if"))
+    (tail : List Str) (ht : tail = [] ∨ ∃ needs, tail = str "if" :: needs) (s : AuxCfg) :
+    runClauses auxVerb (cs₁.flatten ++ tail) s = runClauses auxVerb (cs₂.flatten ++ tail) s := by
+  have hK3 := alone_key aux_key ha s
+  have hK : ∀ k ∈ keysOf cs₁, k ∈ auxKeys := by
+    intro k hk
+    have h3 := hK3 k hk
+    simp only [List.mem_cons, List.not_mem_nil, or_false] at h3
+    unfold keysOf at hk
+    rw [List.mem_filterMap] at hk
+    obtain ⟨c, hc, hh⟩ := hk
+    rcases h3 with rfl | rfl | rfl
+    · simp [auxKeys]
+    · simp [auxKeys]
+    · exact absurd hh (hnoif c hc)
+  have htail : Follows [str "if"] tail := by
+    rcases ht with rfl | ⟨needs, rfl⟩
+    · exact Or.inl rfl
+    · exact Or.inr ⟨_, needs, by simp, rfl⟩
+  refine (texts_order_independent auxVerb auxKeys [str "if"] cs₁ cs₂ hp hK hd
+    (fun c hc => aux_local _ ?_ c (hnoif c hc) (ha c hc)) aux_commutes tail htail s).1
+  intro k hk
+  rcases List.mem_append.mp hk with h | h
+  · have := hK k h
+    simp only [auxKeys, List.mem_cons, List.not_mem_nil, or_false] at this
+    rcases this with rfl | rfl <;> simp
+  · simp at h; simp [h]
+
+/-! ## server name [at …] [to …] [be …] [in …] [rx …] [tx …] [per …] [for …] -/
+
+theorem server_key (k : Str) (b : List Str) (s s' : ServerCfg) (h : serverVerb.clause k b s = .ok (s', [])) :
+    k ∈ serverKeys := by
+  have e : serverVerb.clause = serverClause := rfl
+  rw [e] at h
+  unfold serverClause at h
+  repeat' split at h
+  all_goals first
+    | (rename_i hk; simp at hk; simp [serverKeys, hk]; done)
+    | (rename_i hk _; simp at hk; simp [serverKeys, hk]; done)
+    | cases h
+
+def C15_server_full : Prop :=
+  ∀ (cs₁ cs₂ : List (List Str)), cs₁.Perm cs₂ → Distinct cs₁ → (∀ c ∈ cs₁, Alone serverVerb c) →
+    ∀ s, SameAndOk serverVerb cs₁ cs₂ s
+
+/-- **server, partial**: holds for clause sets with neither a `per` nor a `for` clause, or — more
+generally — whenever the connectives present are all reserved words other than `in` as soon as a
+`per`/`for` clause is among them (this excludes exactly the regions of D52 and D53 and the harmless
+rest of `per`/`for` together with `in`, `rx`, `tx`). -/
+theorem C15_server_partial (cs₁ cs₂ : List (List Str)) (hp : cs₁.Perm cs₂) (hd : Distinct cs₁)
+    (ha : ∀ c ∈ cs₁, Alone serverVerb c)
+    (hper : (keysOf cs₁).contains (str "per") = true → ∀ x ∈ keysOf cs₁, isReserved x = true)
+    (hfor : (keysOf cs₁).contains (str "for") = true → PlainRes (keysOf cs₁)) (s : ServerCfg) :
+    SameAndOk serverVerb cs₁ cs₂ s := by
+  have hK := alone_key server_key ha s
+  refine finish (texts_order_independent serverVerb serverKeys [] cs₁ cs₂ hp hK hd
+    (fun c hc => server_local _ c (ha c hc) ?_ ?_) server_commutes [] (Or.inl rfl) s)
+  · intro hv
+    obtain ⟨k, b, rfl, _⟩ := ha c hc
+    simp at hv; subst hv
+    simpa using hper (by simpa using mem_keysOf hc)
+  · intro hv
+    obtain ⟨k, b, rfl, _⟩ := ha c hc
+    simp at hv; subst hv
+    simpa using hfor (by simpa using mem_keysOf hc)
+
+/-- D52 witness: `server s per x 1 rx :5000`;  D53 witness: `server s for .a.b in front` -/
+def d52a : List (List Str) := [[str "per", str "x", str "1"], [str "rx", str ":5000"]]
+def d52b : List (List Str) := [[str "rx", str ":5000"], [str "per", str "x", str "1"]]
+def d53a : List (List Str) := [[str "for", str ".a.b"], [str "in", str "front"]]
+def d53b : List (List Str) := [[str "in", str "front"], [str "for", str ".a.b"]]
+
+theorem C15_server_d52 :
+    runClauses serverVerb d52a.flatten {} ≠ runClauses serverVerb d52b.flatten {} ∧ d52Region d52a = true := by
+  decide +kernel
+
+theorem C15_server_d53 :
+    runClauses serverVerb d53a.flatten {} ≠ runClauses serverVerb d53b.flatten {} ∧ d53Region d53a = true := by
+  decide +kernel
+
+/-! ## non-vacuity: concrete clause sets that satisfy the hypotheses -/
+
+example : runClauses framerVerb
+    [str "be", str "active", str "at", str "0.5", str "via", str "inode", str "of", str "framer", str "me",
+     str "first", str "f0"] {} =
+    .ok { schedule := str "active", order := str "mid", period := .float (.fin ⟨false, 5, -1⟩),
+          first := str "f0", inode := str "framer.me.inode" } := by decide +kernel
+
+example : runClauses (doVerb true)
+    [str "as", str "foo", str "per", str "x", str "1", str "from", str "a", str "b", str "in", str "pos", str "of", str "me",
+     str "at", str "enter"] {} =
+    .ok { name := str "Foo", context := some (str "enter"), ioinits := [(str "x", .int 1)],
+          preParms := [(str "me.pos", [str "a", str "b"])] } := by decide +kernel
 
 end Ioflo.Clauses
